@@ -760,11 +760,15 @@ class XsdElement(XsdComponent, ParticleMixin,
                 context.validation_error(validation, self, reason, obj)
 
         else:
-            if len(obj):
-                reason = _("a simple content element can't have child elements")
-                context.validation_error(validation, self, reason, obj)
-
             text = obj.text
+            if len(obj):
+                if not all(callable(e.tag) for e in obj):
+                    reason = _("a simple content element can't have child elements")
+                    context.validation_error(validation, self, reason, obj)
+                else:
+                    # Comments and PIs (lxml trees) split the character data into tails
+                    text = (text or '') + ''.join(e.tail or '' for e in obj) or None
+
             if self.fixed is not None:
                 if not text:
                     text = self.fixed
